@@ -6,7 +6,7 @@ TraceInit == l = 1
 TraceNext ==
   /\ l <= Len(Rec)
   /\ l' = l + 1
-  /\ \A g \in TViolations(Rec[l]) : Viol(l, Rec[l].id, "C13", g, "elapsed " \o ToString(Rec[l].elapsed) \o " ms")
+  /\ \A g \in TViolations(Rec[l]) : Viol(l, Rec[l].id, TProp(g), g, "elapsed " \o ToString(Rec[l].elapsed) \o " ms")
 TraceSpec == TraceInit /\ [][TraceNext]_l
 TraceAccepted ==
   LET d == TLCGet("stats").diameter IN
